@@ -61,8 +61,9 @@ func (y *YieldCtl) Arm(sched []PauseAt, lifo bool) {
 
 // Disarm stops recording and lets every parked goroutine go.
 func (y *YieldCtl) Disarm() {
-	y.armed.Store(false)
 	y.mu.Lock()
+	y.armed.Store(false) // under the lock: a goroutine that is between its armed check and the lock sees it below
+	y.sched = map[PauseAt]bool{}
 	for _, p := range y.paused {
 		p.released = true
 	}
@@ -77,6 +78,10 @@ func (y *YieldCtl) Hook(n int) {
 		return
 	}
 	y.mu.Lock()
+	if !y.armed.Load() {
+		y.mu.Unlock()
+		return
+	}
 	y.hits[n]++
 	h := y.hits[n]
 	y.nhits++
@@ -110,6 +115,10 @@ func (y *YieldCtl) Park(label int) {
 		return
 	}
 	y.mu.Lock()
+	if !y.armed.Load() {
+		y.mu.Unlock()
+		return
+	}
 	Seq.Add(1)
 	y.pause(PauseAt{Point: label, Hit: 0})
 }
